@@ -42,6 +42,20 @@ def run(ctx):
     destlib.mc(ctx, "Destination_c06.cfg", dict(paused, InitModes={"paused"}, Modes={"healthy"}, MaxChanges=0, Mutant="WriteTimeoutDrop"),
                expect={"Conservation_steady", "SteadyHealthy"}, count=False)
 
+    # address update at run time: the operator points the destination at another endpoint (the connector's handshake, run
+    # by the caller) while the relay may hold a live connection to the previous one, whose writer may be blocked (black hole,
+    # pause).  The held connection is replaced without waiting for anything: the sender still returns (relay and sender fair,
+    # nothing assumed about writers and endpoints).  A relay that flushes and closes the previous connection inline before
+    # taking the new one is rejected even with fair connection writers: the writer of the previous connection cannot move.
+    addru = dict(base, AddrUpd=True, InitModes={"blackhole", "paused", "healthy"}, Modes={"healthy", "blackhole"}, MaxChanges=1)
+    destlib.mc(ctx, "Destination_c06.cfg", addru, workers=4)
+    if not q:
+        destlib.mc(ctx, "Destination_c06.cfg", dict(base, AddrUpd=True), workers=4)       # every mode before and after the update
+        destlib.mc(ctx, "Destination_c06.cfg", dict(addru, N=4, MaxChanges=2, Modes={"healthy", "blackhole", "paused"}), workers=4)
+        destlib.mc(ctx, "Destination_c06.cfg", dict(addru, Spool=True, RT=1, SB=1), workers=4)
+    destlib.mc(ctx, "Destination_c06w.cfg", dict(addru, InitModes={"blackhole"}, Modes={"healthy"}, Mutant="SyncFlushOldConn"),
+               expect={"temporal"}, count=False, workers=4)
+
     # 2. real routes with real destinations against harness endpoints
     scns = destlib.c06_scenarios(ctx)
     ctx.log("C06 scenarios: %d" % len(scns))
@@ -69,6 +83,8 @@ def run(ctx):
         raise Machinery("dead driver: %d latency records for %d scenarios" % (len(lats), len(scns)))
 
     replays = {e["scn"]: e for e in events if e["ev"] == "replay"}
+    addrs = {e["scn"]: e for e in events if e["ev"] == "addrupd"}
+    ADDR_KINDS = dict(addrbh="accepts and never reads", addrstall="reads at first, then stops reading", addrok="healthy")
     ugates = {e["scn"]: e for e in events if e["ev"] == "ugate"}
     SPOOL_KINDS = dict(spoolbh="accepts and never reads", spoolstall="stalls, then resumes", spoolclose="closes mid-replay",
                        spoolgate="connection writer held at hd.recv (hook gate)")
@@ -84,12 +100,24 @@ def run(ctx):
                 extra = (" [spooling enabled: %s lines spooled during an outage, endpoint back (%s), %d lines replayed from the spool, "
                          "%d of them taken while the connection queue (connbuf %d) was full, %d of those dropped and counted]"
                          % (rp.get("backlog"), SPOOL_KINDS.get(s.get("kind")), rp["unspooled"], rp["unspool_full"], s.get("connbuf"), rp["unspool_drop"]))
+            au = addrs.get(src.get("scn"))
+            if au:
+                extra = (" [address update: previous endpoint %s; %s lines handed, writer blocked=%s (%s written to the connection, %s counted "
+                         "slow_conn); then Route.UpdateDestination(0, addr=<healthy endpoint>)%s: returned=%s after %s ms; %d calls had returned%s]"
+                         % (ADDR_KINDS.get(s.get("kind")), au.get("pre_handed"), au.get("saturated"), au.get("pre_out"),
+                            au.get("pre_slow_conn"), " with traffic going on" if au.get("bg") else "", au.get("upd_returned"),
+                            au.get("upd_ms", ">= 12000"), rec["calls"], ", the next one never did" if rec["stuck"] else ""))
             ctx.violation("dispatch-stalls endpoint=" + cls,
                           "Route.Dispatch took %.3f s (bound 5 s; stuck=%s) with a %s endpoint%s" % (rec["max_us"] / 1e6, rec["stuck"], s.get("kind"), extra),
-                          dict(scenario=s, event=src, replay=rp))
+                          dict(scenario=s, event=src, replay=rp, addrupd=au))
         elif rec["ev"] == "phase":
             extra = ""
             st = stalls.get(src.get("scn"))
+            au = addrs.get(src.get("scn"))
+            if au and src.get("endpoint") == "addr-new":
+                extra = (" [lines handed after Route.UpdateDestination(0, addr=<healthy endpoint>) had returned (%s ms); previous endpoint %s, "
+                         "its writer blocked=%s; counters read under the destination's new key]"
+                         % (au.get("upd_ms"), ADDR_KINDS.get(s.get("kind")), au.get("saturated")))
             if rec["steady"] == "paused" and st:
                 extra = (" [endpoint stopped reading for %d ms (flush period %d ms) without closing, then read to the end; the relay "
                          "opened %d connection(s)]" % (st["held_ms"], st["flush_ms"], src.get("accepted", 0)))
@@ -129,6 +157,25 @@ def run(ctx):
         if weak:        # natural timing depends on kernel send-buffer sizes; the gated variant (checked above) does not
             ctx.note("%d of %d spool-replay scenarios did not fill the connection queue during the replay (no conclusion drawn "
                      "from them)" % (len(weak), len(replays)))
+    # the address-update scenarios: the writer of the previous connection must really have been blocked when the address was
+    # changed (otherwise the update says nothing about a stuck writer), and the update must have gone through
+    naddr = [s for s in scns if s["kind"].startswith("addr")]
+    if not ctx.violations:
+        if len(addrs) != len(naddr):
+            raise Machinery("dead driver: %d addrupd records for %d address-update scenarios" % (len(addrs), len(naddr)))
+        notret = [e for e in addrs.values() if not e["upd_returned"] or e.get("upd_err")]
+        if notret:
+            raise Machinery("address update did not go through although every Dispatch call returned: %s" % json.dumps(notret[:2]))
+        hard = [e for e in addrs.values() if e["kind"] != "addrok"]
+        weak = [e for e in hard if not e["saturated"] or e["held_ms"] < 6 * e["flush_ms"] or e["pre_slow_conn"] < 50]
+        if hard and len(weak) == len(hard):
+            raise Machinery("no address-update scenario had the previous connection's writer blocked: %s" % json.dumps(weak[:2]))
+        if weak:
+            ctx.note("%d of %d address-update scenarios did not block the previous connection's writer (no conclusion drawn from them)"
+                     % (len(weak), len(hard)))
+        newp = [p for p in phases if p["endpoint"] == "addr-new" and p["steady"] == "healthy"]
+        if naddr and not any(p["received"] > 0 for p in newp):
+            raise Machinery("no address-update scenario got a line through to the new endpoint: %s" % json.dumps(newp[:2]))
     for p in phases:
         if p["steady"] == "paused" and p["down"] > 0:
             ctx.note("stall-resume scenario %s: the relay saw a down phase although the endpoint never closed (conn_down_no_spool=%d, "
@@ -178,9 +225,14 @@ def run(ctx):
     cov["spool_replay"] = [dict(scn=e["scn"], kind=e["kind"], connbuf=e["connbuf"], backlog=e.get("backlog"), unspooled=e["unspooled"],
                                 unspooled_into_full_queue=e["unspool_full"], dropped_from_spool=e["unspool_drop"], fill_ms=e.get("fill_ms"),
                                 forced=e["forced"]) for e in replays.values()]
+    cov["address_update"] = [dict(scn=e["scn"], kind=e["kind"], route=e["route"], traffic_during_update=e["bg"], writer_blocked=e["saturated"],
+                                  held_ms=e.get("held_ms", 0), lines_before=e.get("pre_handed", 0), slow_conn_before=e.get("pre_slow_conn", 0),
+                                  update_returned=e["upd_returned"], update_ms=e.get("upd_ms", -1)) for e in addrs.values()]
     cov["rule"] = ("scenarios = endpoint behaviour (refuse, SYN-drop, black hole, 1 byte/10 ms, healthy, close after k bytes, "
                    "stall-resume (stops reading for >= 12 flush periods with the writer blocked, never closes, reads to the end), "
-                   "stall-close (closes while the writer is blocked), mixed route with one bad endpoint%s; with spooling enabled: outage "
+                   "stall-close (closes while the writer is blocked), mixed route with one bad endpoint, address update "
+                   "(Route.UpdateDestination addr=) away from a black-holed / stalled endpoint with the writer blocked to a healthy one "
+                   "(with and without traffic during the update)%s; with spooling enabled: outage "
                    "(backlog in the disk spool), then the endpoint comes back as a black hole / stalls and resumes / closes mid-replay, "
                    "and a hook-gated variant with the connection writer held, traffic going on during the replay) x (connbuf, iobuf, flush) "
                    "settings %s, every Route.Dispatch call timed "
@@ -201,6 +253,10 @@ def run(ctx):
                         "stall-resume: 'writer blocked' is observed as no line written to the connection while lines keep coming and are being "
                         "dropped (>= 50); the endpoint resumes only after that has lasted max(400 ms, 12 flush periods) without interruption; identity at quiescence "
                         "handed = received + slow_conn + conn_down_no_spool (the last is 0 unless the relay gave the connection up)",
+                        "address-update scenarios: 'writer blocked' as in stall-resume; without traffic during the update the lines handed after "
+                        "UpdateDestination has returned are accounted for as a healthy steady phase of the new endpoint (counters under the destination's "
+                        "new key, deltas from the moment the update returned); with traffic during the update only the time bound is judged; what was "
+                        "queued for the previous endpoint is not accounted for (no steady state)",
                         "spool-replay scenarios (spooling enabled): only the Dispatch time bound is judged (losses with spooling on are C07's subject); "
                         "'a line taken from the spool met a full connection queue' is observed through the verif hook (relay.unspool with len(In) == cap(In)); "
                         "a stalled endpoint resumes after 6 s when a Dispatch call is still pending (the call then exceeded the bound)"]
